@@ -1,7 +1,22 @@
 (* C01: constants the model states literally, tied to the source through Generated.v
    (regenerated from /repo on every run). *)
 From NV Require Import Base Regex Generated C01_Model.
+Open Scope string_scope.
+Open Scope list_scope.
 Theorem C01_constants_generated :
   media_type_payload_v1 = gen_media_type_payload_v1.
 Proof. reflexivity. Qed.
 Print Assumptions C01_constants_generated.
+
+(* the table [algorithms] of verifier/verifier.go (crypto.Hash -> digest.Algorithm), by identifier:
+   [alg_of] is that table, row by row, and maps nothing else *)
+Definition halg_name (h : halg) : string :=
+  match h with H256 => "SHA256" | H384 => "SHA384" | H512 => "SHA512" | HNone => "" end.
+Definition dalg_name (a : dalg) : string :=
+  match a with D256 => "SHA256" | D384 => "SHA384" | D512 => "SHA512" end.
+Theorem C01_algorithms_generated :
+  flat_map (fun h => match alg_of h with Some a => [(halg_name h, dalg_name a)] | None => [] end)
+           [H256; H384; H512; HNone]
+  = gen_verifier_digest_algorithms.
+Proof. reflexivity. Qed.
+Print Assumptions C01_algorithms_generated.
